@@ -371,6 +371,17 @@ func (f *Func) reachTarget(
 				skip = true
 				argMap[graph.VertexID(out)] = v.Value
 			}
+
+		case *valueVertex:
+			// A named value that we already have (it was given directly as
+			// an input or produced earlier in this call) is used as-is. We
+			// must not search for a path: the discount for same-named
+			// values can make a chain of conversions look cheaper than the
+			// direct input.
+			if v.Value.IsValid() {
+				skip = true
+				argMap[graph.VertexID(out)] = v.Value
+			}
 		}
 
 		// If we're skipping because we have this value already, there is
